@@ -525,6 +525,7 @@ def _extra_enums():
         "Dense": [("D0", 0), ("D1", 1), ("D2", 2), ("D3", 3)],
         "DenseAlias": [("E0", 0), ("E1", 1), ("E1B", 1), ("E2", 2)],
         "Single": [("ONLY", 0)],
+        "Underscored": [("_2D", 0), ("_3D", 1), ("FLAT", 0), ("_", 5)],     # pythonized names of e.g. DIMENSION_2D
     }
     for name, decl in shapes.items():
         ns = {}
